@@ -19,3 +19,24 @@ Fixpoint attempts_requests (sid : Z) (p : position) (stored : list position) : l
   | [] => stream_requests sid p
   | q :: r => stream_requests sid p ++ attempts_requests sid q r
   end.
+
+(* ---- the master's answer to the checksum announcement ----
+   prepareForReplication returns an error for every failure of Exec (an ERR packet of the master as well as a lost
+   connection); newSlaveConnection then closes the connection and Stream returns that error without ever calling
+   startDumpFromBinlogPosition: no dump is requested on a connection on which the announcement did not take effect,
+   and the stored position is left alone. *)
+Inductive set_reply := SetOk | SetRejected | SetLost.
+
+Record handshake_result := {
+  hs_requests : list request;        (* what the master receives, in order *)
+  hs_failed : bool;                  (* Stream returns an error before any event is read *)
+  hs_position_kept : bool            (* the attempt leaves the stored position untouched *)
+}.
+
+Definition stream_handshake (sid : Z) (p : position) (r : set_reply) : handshake_result :=
+  match r with
+  | SetOk => {| hs_requests := stream_requests sid p; hs_failed := false; hs_position_kept := false |}
+  | SetRejected | SetLost => {| hs_requests := [RQuery checksumSQL]; hs_failed := true; hs_position_kept := true |}
+  end.
+
+Definition is_dump (q : request) : bool := match q with RDump _ _ _ _ => true | RQuery _ => false end.
